@@ -75,7 +75,7 @@ fn main() {
         writeln!(src, "pub static ENTRIES: &[Entry] = &[").unwrap();
         for s in &specs {
             let ty = if s.errors { format!("{}::I<4>", s.name) } else { format!("{}::I", s.name) };
-            writeln!(src, "    Entry {{ spec_json: {}::SPEC_JSON, run_rec: rr::<{}>, process: pp::<{}> }},", s.name, ty, ty).unwrap();
+            writeln!(src, "    Entry {{ root: root_of::<{}>, spec_json: {}::SPEC_JSON, run_rec: rr::<{}>, process: pp::<{}> }},", ty, s.name, ty, ty).unwrap();
         }
         writeln!(src, "];").unwrap();
         writeln!(src, "pub const META_JSON: &str = r####\"{}\"####;", serde_json::to_string(&meta).unwrap()).unwrap();
